@@ -23,6 +23,14 @@ func KitchenSinks() []Case {
 		d.Comp("schemas", "Cat", Obj([]string{"kind", "lives"}, M{"kind": Prim("string", ""), "lives": Prim("integer", "")}))
 		d.Comp("schemas", "Dog", Obj([]string{"kind", "bark"}, M{"kind": Prim("string", ""), "bark": Prim("boolean", "")}))
 		d.Comp("schemas", "Animal", M{"oneOf": L{Ref("schemas", "Cat"), Ref("schemas", "Dog")}, "discriminator": M{"propertyName": "kind", "mapping": M{"c": "#/components/schemas/Cat", "d": "#/components/schemas/Dog"}}})
+		d.Comp("schemas", "Square", Obj([]string{"label", "side"}, M{"label": Prim("string", ""), "side": Prim("integer", "")}))
+		d.Comp("schemas", "Circle", Obj([]string{"label", "radius"}, M{"label": Prim("string", ""), "radius": Prim("integer", "")}))
+		d.Comp("schemas", "Shape", M{"oneOf": L{Ref("schemas", "Square"), Ref("schemas", "Circle")}})
+		d.Op("/shapes", "post", M{
+			"security":    L{},
+			"requestBody": M{"required": true, "content": JSONContent(Obj([]string{"shape"}, M{"shape": Ref("schemas", "Shape"), "note": Prim("string", "")}))},
+			"responses":   M{"200": Resp("ok", Ref("schemas", "Shape")), "default": M{"description": "e"}},
+		})
 		d.Comp("schemas", "Pets", Arr(Ref("schemas", "Pet")))
 		d.Comp("schemas", "Err", Obj([]string{"message"}, M{"message": Prim("string", ""), "code": Prim("integer", "int32")}))
 		d.Comp("parameters", "Limit", ParamNode("limit", "query", false, Prim("integer", "int32")))
